@@ -40,6 +40,25 @@ DerivMat(t, n, p) ==
                      f == RDiv(R(deg), den)
                  IN  [col \in 1 .. m |-> RMul(f, RSub(prev[r + 1][col], prev[r][col]))]]
 
+(***************************************************************************)
+(* divided_diffs(order, porder, j, knots, out) of glam.c, transcribed: the  *)
+(* p+1 non-zero entries of row j of the finite-difference matrix the code   *)
+(* builds (de Boor X.16).  MC_Glam checks that they are row j of DerivMat.  *)
+(***************************************************************************)
+RECURSIVE DividedDiffs(_, _, _, _)
+DividedDiffs(t, n, p, j) ==           \* j 0-based row, returns a sequence of p+1 rationals
+    IF p = 0 THEN <<One>>
+    ELSE LET a == DividedDiffs(t, n, p - 1, j + 1)
+             b == DividedDiffs(t, n, p - 1, j)
+             delta == RDiv(RSub(K(t, j + n + 1), K(t, j + p)), R(n - (p - 1)))
+         IN  [i \in 1 .. p + 1 |->
+                 IF i = 1 THEN RDiv(RNeg(b[1]), delta)
+                 ELSE IF i = p + 1 THEN RDiv(a[p], delta)
+                 ELSE RDiv(RSub(a[i - 1], b[i]), delta)]
+DividedDiffsRowOK(t, n, p, j) ==
+    LET row == DerivMat(t, n, p)[j + 1]  dd == DividedDiffs(t, n, p, j)
+    IN  \A col \in 1 .. NSpl(t, n) : row[col] = IF col >= j + 1 /\ col <= j + p + 1 THEN dd[col - j] ELSE Zero
+
 (* Gram matrix of the derivative coefficients: P = D'D *)
 PenaltyMat(t, n, p) ==
     LET D == DerivMat(t, n, p)
